@@ -183,6 +183,25 @@ func runC13(e *emitter, tier string, seed uint64) {
 		}
 		e.emit("evalcount "+c.name, "evalcount", c.name, fmt.Sprint(calls), hx(c13Canon(out)))
 	}
+	// a hand-written layer that prepares the call contexts of two callees before it renders either: each callee gets the
+	// block of its own call
+	if e.mine("layer two-contexts") {
+		layer := templ.ComponentFunc(func(ctx context.Context, w io.Writer) error {
+			l := templ.WithChildren(ctx, templ.Raw("L"))
+			r := templ.WithChildren(ctx, templ.Raw("R"))
+			if err := tmpl.Use("1").Render(l, w); err != nil {
+				return err
+			}
+			return tmpl.Use("2").Render(r, w)
+		})
+		var sb strings.Builder
+		err := tmpl.CallNoBlock(layer).Render(templ.InitializeContext(context.Background()), &sb)
+		out := c13Canon(sb.String())
+		if err != nil {
+			out = "ERR:" + err.Error()
+		}
+		e.emit("layer two-contexts", "layer", "two-contexts", hx(`<nb><useid="1">L</use><useid="2">R</use></nb>`), hx(out))
+	}
 	// the four shapes that leaked before the repair, and the basic ones
 	fixed := []string{}
 	_ = fixed
